@@ -43,7 +43,25 @@ def gen(run, g, num, seed, steps, policy=False):
     v.require_design_ok(res, "SpeakerGen " + g)
     if not res.printed:
         raise v.MachineryError("SpeakerGen printed no behaviours:\n" + res.out[-2000:])
-    return res.printed
+    return thin(res.printed, seed, None if run.tier == "thorough" else 6)
+
+
+def thin(behs, seed, per_prefix):
+    """TLC prints one behaviour per successor of the last step of every walk (dozens that differ in the last
+    step only). The quick tier keeps at most per_prefix of each such family, chosen by a seeded hash."""
+    if not per_prefix:
+        return behs
+    import hashlib
+    import json
+    fam = {}
+    for b in behs:
+        st = json.loads(b)["steps"]
+        fam.setdefault(json.dumps(st[:-1], sort_keys=True), []).append(b)
+    out = []
+    for k in sorted(fam):
+        lst = sorted(fam[k], key=lambda b: hashlib.sha1((str(seed) + b).encode()).hexdigest())
+        out.extend(lst[:per_prefix])
+    return out
 
 
 PAIRS_CFG = """SPECIFICATION QSpec
@@ -106,7 +124,7 @@ def run_speaker(run, invs, kf_invs=None, design=design_mech, policy=False, colli
     thorough = run.tier == "thorough"
     if design:
         design(run, thorough)
-    num = 25 if not thorough else 200
+    num = 50 if not thorough else 200      # walks; the quick tier keeps <= 6 last-step variants of each (thin)
     steps = 14 if not thorough else 18
     for i, g in enumerate(GROUPS):
         if policy and g == "rs":
